@@ -58,3 +58,17 @@ for T in CPC_TYPES:
     w(f'//@   invariant forall i int :: (0 <= i && i <= rangeindex) ==> {OBJ_META("contracts[i]", T, REC("ctx","k","i"))}')
     w(f'//@   invariant forall i int :: (0 <= i && i <= rangeindex) ==> {OBJ_EXECS("contracts[i]", T)}')
 w()
+
+w('''// The accessors of the three contract objects return the stored record / executor list unchanged (value receivers: the
+// pointer-receiver wrappers share these contracts). With contracts here, a call through CustomPrecompiledContractI is
+// split over these six implementations without copying the objects.''')
+for T in CPC_TYPES:
+    w(f'//@ func (m {T}) GetMetadata() (meta cpctypes.CustomPrecompiledContractMeta)')
+    w('//@   modifies nothing')
+    w(f'//@   ensures[C17.get_metadata_{SHORT(T)}] meta.CustomPrecompiledType == m.metadata.CustomPrecompiledType && meta.Address == m.metadata.Address && meta.Name == m.metadata.Name && meta.TypedMeta == m.metadata.TypedMeta && meta.Disabled == m.metadata.Disabled')
+    w('//@   panics never')
+    w(f'//@ func (m {T}) GetMethodExecutors() (execs []ExtendedCustomPrecompiledContractMethodExecutorI)')
+    w('//@   modifies nothing')
+    w(f'//@   ensures[C17.get_executors_{SHORT(T)}] execs == m.executors')
+    w('//@   panics never')
+w()
